@@ -25,14 +25,16 @@ def validDeleteRange (s e : Int) : Bool :=
 def inDeleteRange (s e : Int) (ts : Int) : Bool :=
   (decide (s ≤ 0) || decide (ts ≥ s)) && (decide (e ≤ 0) || decide (ts < e))
 
+/-- `-1` (bigtable.ServerTime) means "the server's clock in whole milliseconds". -/
+def resolveTs (now ts : Int) : Int := if ts = -1 then truncMs now else ts
+
 /-- One mutation applied to a private copy of the row (`none` = error). -/
 def applyMutation (sch : Schema) (now : Int) (r : Row) : Mutation → Option Row
   | .unknown => none
   | .setCell fam q ts v =>
     if !sch.has fam then none else
-    let ts' := if ts = -1 then truncMs now else ts
-    if !validTimestamp ts' then none else
-    some (r.setCells fam q fun cs => appendOrReplaceCell cs ⟨ts', v, []⟩)
+    if !validTimestamp (resolveTs now ts) then none else
+    some (r.setCells fam q fun cs => appendOrReplaceCell cs ⟨resolveTs now ts, v, []⟩)
   | .deleteFromColumn fam q hasRange s e =>
     if !sch.has fam then none else
     if hasRange && !validDeleteRange s e then none else
